@@ -103,9 +103,17 @@ def settings_of(agent) -> Optional[Dict[str, Any]]:
             forbid.append("c2-server-ransomware-launch")
         if pay is not None and getattr(pay, "exfiltrate", None) is False:
             forbid.append("c2-server-data-exfiltrate")
+        # stages of TAP003 whose handler "performs a trial using the given user <STAGE> stage probability" (docstrings of
+        # _planning / _access / _manipulation / _exploit) and whose configured probability is 0
+        zero = []
+        if agent.config.type == "tap-003":
+            for nm in ("PLANNING", "ACCESS", "MANIPULATION", "EXPLOIT"):
+                opt = getattr(kc, nm, None)
+                if opt is not None and getattr(opt, "probability", 1) == 0:
+                    zero.append(int(agent.selected_kill_chain[nm]))
         base.update(kind="tap", start=_clip(s.start_step), startVar=_clip(s.variance), freq=_clip(s.frequency), var=_clip(s.variance),
                     nodes=nodes, nStages=n_stages, repeatChain=bool(s.repeat_kill_chain), repeatStages=bool(s.repeat_kill_chain_stages),
-                    c2=str(c2 or ""), startNodes=start_nodes, forbid=forbid)
+                    c2=str(c2 or ""), startNodes=start_nodes, forbid=forbid, zeroStages=zero)
         return base
     return None
 
@@ -339,6 +347,9 @@ def tap_variant(cfg: Dict[str, Any], **kw) -> Dict[str, Any]:
                     a["agent_settings"]["starting_nodes"] = list(v)
                 elif k == "payload":
                     a["agent_settings"]["kill_chain"].setdefault("PAYLOAD", {}).update(v)
+                elif k == "stage_prob":
+                    for stn, pv in v.items():
+                        a["agent_settings"]["kill_chain"].setdefault(stn, {})["probability"] = pv
                 else:
                     a["agent_settings"][k] = v
     return cfg
@@ -607,6 +618,9 @@ def main(tier: str, seed: int) -> int:
         ("tap-001", dict(start_step=1, frequency=1, variance=0, repeat_kill_chain=True, payload={"exfiltrate": True, "corrupt": False}, _steps=90),
          "passive"),
         ("tap-001", dict(start_step=1, frequency=1, variance=0, payload={"exfiltrate": False, "corrupt": True}, _steps=56), "passive"),
+        # one stage of TAP003 with probability 0 (the agent reaches the stage and stays idle in it)
+        ("tap-003", dict(start_step=1, frequency=1, variance=0, repeat_kill_chain_stages=True, stage_prob={"EXPLOIT": 0}, _steps=50), "passive"),
+        ("tap-003", dict(start_step=1, frequency=1, variance=0, repeat_kill_chain_stages=True, stage_prob={"MANIPULATION": 0}, _steps=30), "passive"),
         ("tap-003", dict(start_step=1, frequency=3, variance=1, repeat_kill_chain=True), "passive"),
     ]
     if not quick:
